@@ -64,6 +64,10 @@ def apply_op(ms, op):
         if op[0] == 2:
             ms.reset()
             return []
+        if op[0] == 3:
+            # inspection: the read-only views the simulation getters use
+            ms.wordwise_repr(); ms.cache_repr(); ms.get_cache_stats()
+            return []
         if op[0] == 0:
             return [0, int(rd[op[1]](op[2], bool(op[3])))]
         wr[op[1]](op[2], ty[op[1]](op[3]), bool(op[4]))
@@ -145,6 +149,11 @@ def run_history(case, model, with_model=True):
         r = apply_op(ms, op)
         pen = pm.cycles - cyc0
         itrace.append([r, pen, directory(ms), lower_of(mem)])
+        if op[0] == 3:
+            classes.add("inspect")
+            if itrace[-1][2:] != (itrace[-2][2:] if len(itrace) > 1 else itrace[-1][2:]) or pen:
+                out["C03"].append(("violation", f"op {k}: an inspection call changed the cache state, lower memory or the cycle counter"))
+            continue
         if op[0] == 2:
             # reset(): everything stored is dropped, the statistics counters are kept
             classes.add("reset")
@@ -299,6 +308,8 @@ def gen_history(rng, cfg, n, direct_p=0.03, bad_p=0.08):
             ops.append([1, nb, a, rng.getrandbits(nb), 0])
         if reset_at is not None and len(ops) == reset_at:
             ops.append([2])
+        if rng.random() < 0.06:
+            ops.append([3])
     return ops
 
 
@@ -326,5 +337,5 @@ def describe(case):
     cfg = case["cfg"]
     return {"cache": f"index_bits={cfg[0]} block_bits={cfg[1]} assoc={cfg[2]} {'plru' if cfg[3] else 'lru'} "
                      f"{'write-through' if cfg[4] else 'write-back'} penalty={cfg[5]}",
-            "ops": ["reset()" if op[0] == 2 else (f"read{op[1]}({op[2]:#x}, counted={bool(op[3])})" if op[0] == 0 else
+            "ops": ["reset()" if op[0] == 2 else "inspect()" if op[0] == 3 else (f"read{op[1]}({op[2]:#x}, counted={bool(op[3])})" if op[0] == 0 else
                      f"write{op[1]}({op[2]:#x}, {op[3]:#x}, direct={bool(op[4])})") for op in case["ops"]]}
